@@ -29,4 +29,100 @@ def findAt (d : Deque) (needle : List Byte) : Nat → Nat → Option Nat
       else findAt d needle fuel (i + 1)
     else none
 
+
+/-! ### The operations the drivers issue, and the outcomes the property allows for each.
+
+`allowed cap frag d op` lists every (result, content afterwards) pair that is compatible with the property
+text when the deque holds `d` in a storage of `cap` bytes:
+* a request for more than is stored / free is refused and the content stays;
+* a zero-length request may be accepted or refused (the content is the same either way);
+* without a destination (`dst = false`) the removed bytes are only reachable through a pointer into contiguous
+  storage, so refusal is an admissible answer as well (documented limit of `mpt_qpop`/`mpt_qshift`);
+* `resize n` keeps the newest `n` bytes (the documented "remove data from queue start" of queue_resize.c; DESIGN §5.0);
+* `find` may refuse when fewer bytes than one element are stored or when the content is stored in two pieces
+  (`frag`: an element may straddle the wrap; documented ENOTSUP) — this is the only use of representation state;
+* `prepare n` never changes the content; it must report `n` free bytes unless the size computation would exceed
+  `SIZE_MAX` (`sizeMax`), in which case it refuses.
+The same function is printed by the model driver as the `S` column and is the subject of `C13.stepX_sound`. -/
+
+/-- `SIZE_MAX` on LP64 -/
+def sizeMax : Nat := 2 ^ 64 - 1
+
+inductive XOp where
+  | push (n : Nat) (data : Option (List Byte))      -- `none` = NULL data pointer (zero fill)
+  | unshift (n : Nat) (data : Option (List Byte))
+  | pop (n : Nat) (dst : Bool)
+  | shift (n : Nat) (dst : Bool)
+  | crop (pos n : Nat)
+  | set (pos n : Nat) (data : Option (List Byte))
+  | get (pos n : Nat) (dst : Bool)
+  | align (pos : Nat)
+  | resize (n : Nat)
+  | prepare (n : Nat)
+  | find (needle : List Byte)
+  | string
+  | load (len : Nat) (avail : List Byte)            -- descriptor offers `avail`, then end of file
+  | save (accept : Nat)                             -- descriptor accepts at most `accept` bytes
+  | mget (off take : Nat) (vec : Bool)              -- `mpt_message_get` view; `vec` = continuation vector supplied
+  deriving Repr
+
+inductive XOut where
+  | ok (bytes : List Byte)
+  | okN (n : Nat) (bytes : List Byte)
+  | found (pos : Nat)
+  | notFound
+  | refused
+  | bad
+  deriving Repr, DecidableEq
+
+/-- bytes a push/set stores: the data, or `n` zeros -/
+def srcBytes (n : Nat) (data : Option (List Byte)) : List Byte :=
+  match data with
+  | some b => b.take n ++ List.replicate (n - b.length) 0
+  | none => List.replicate n 0
+
+def allowedGrow (d : Deque) (cap n : Nat) (new : Deque) : List (XOut × Deque) :=
+  if n = 0 then [(.ok [], d), (.refused, d)]
+  else if d.length + n ≤ cap then [(.ok [], new)] else [(.refused, d)]
+
+def allowedTake (d : Deque) (n : Nat) (dst : Bool) (res : Option (Deque × List Byte)) : List (XOut × Deque) :=
+  match res with
+  | some (rest, out) => (.ok out, rest) :: (if dst ∧ n ≠ 0 then [] else [(.refused, d)])
+  | none => [(.refused, d)]
+
+def allowedAt (d : Deque) (n : Nat) (res : Option Deque) (out : List Byte) : List (XOut × Deque) :=
+  match res with
+  | some new => (.ok out, new) :: (if n = 0 then [(.refused, d)] else [])
+  | none => (.refused, d) :: (if n = 0 then [(.ok [], d)] else [])
+
+def allowed (cap : Nat) (frag : Bool) (d : Deque) : XOp → List (XOut × Deque)
+  | .push n data => allowedGrow d cap n (push d (srcBytes n data))
+  | .unshift n data => allowedGrow d cap n (unshift d (srcBytes n data))
+  | .pop n dst => allowedTake d n dst (pop d n)
+  | .shift n dst => allowedTake d n dst (shift d n)
+  | .crop pos n => allowedAt d n (crop d pos n) []
+  | .set pos n data => allowedAt d n (set d pos (srcBytes n data)) []
+  | .get pos n dst => allowedAt d n ((get d pos n).map fun _ => d) (if dst then (get d pos n).getD [] else [])
+  | .align _ => [(.ok [], d)]
+  | .resize n => [(.ok [], if n < d.length then d.drop (d.length - n) else d)]
+  | .prepare n =>
+    if n > cap - d.length ∧ n - (cap - d.length) > sizeMax - 8 - cap then [(.refused, d)] else [(.ok [], d)]
+  | .find needle =>
+    (match findAt d needle (d.length + 1) 0 with
+      | some i => (.found (i * needle.length), d)
+      | none => (.notFound, d))
+    :: (if d.length < needle.length ∨ frag then [(.refused, d)] else [])
+  | .string => if d.length < cap then [(.ok d, d)] else [(.refused, d)]
+  | .load len avail =>
+    let free := cap - d.length
+    let k := Nat.min avail.length (if len = 0 ∨ len ≥ free then free else len)
+    if free = 0 then [(.refused, d)] else [(.okN k [], d ++ avail.take k)]
+  | .save accept =>
+    let k := Nat.min d.length accept
+    [(.okN k (d.take k), d.drop k)]
+  | .mget off take vec =>
+    if off + take ≤ d.length then
+      (.ok ((d.drop off).take take), d) :: (if vec then [] else [(.refused, d)])
+    else [(.refused, d)]
+
 end Mpt.Deque
